@@ -35,7 +35,7 @@ fn free_port() -> u16 {
     l.local_addr().unwrap().port()
 }
 
-fn build(port: u16, threads: usize, sh: Arc<Shared>) -> Server {
+fn build(port: u16, threads: usize, sh: Arc<Shared>, slow_teardown: bool) -> Server {
     let mut b = Server::builder(format!("127.0.0.1:{port}")).unwrap();
     b.thread_count(threads);
     b.route(Method::Post, "/echo", |mut ctx, res| {
@@ -105,6 +105,11 @@ fn build(port: u16, threads: usize, sh: Arc<Shared>) -> Server {
                 logs[*i].result = if result.is_ok() { 'o' } else { 'e' };
             }
         }
+        if slow_teardown {
+            // a hook that closes the connection first and then does slow work (the descriptor number is free meanwhile)
+            drop(stream);
+            std::thread::sleep(Duration::from_millis(40));
+        }
     });
     b.build()
 }
@@ -113,7 +118,9 @@ pub fn serve(arg: &str) -> String {
     let mut mode = "serve";
     let mut threads = 2usize;
     let mut plan = "";
+    let mut slow_teardown = false;
     for w in arg.split_whitespace() {
+        if w == "slowtd=1" { slow_teardown = true }
         if let Some(v) = w.strip_prefix("mode=") { mode = v }
         if let Some(v) = w.strip_prefix("threads=") { threads = v.parse().unwrap_or(2) }
         if let Some(v) = w.strip_prefix("plan=") { plan = v }
@@ -130,7 +137,7 @@ pub fn serve(arg: &str) -> String {
         logs: Mutex::new(Vec::new()),
     });
     let port = free_port();
-    let server = build(port, threads, Arc::clone(&sh));
+    let server = build(port, threads, Arc::clone(&sh), slow_teardown);
     let mode_s = mode.to_string();
     let (tx, rx) = std::sync::mpsc::channel();
     std::thread::spawn(move || {
@@ -160,6 +167,11 @@ pub fn serve(arg: &str) -> String {
                 if let Some(h) = step.strip_prefix("s:") {
                     let _ = client.write_all(&unhex(h));
                     std::thread::sleep(Duration::from_millis(2));
+                } else if let Some(h) = step.strip_prefix("S:") {
+                    // send and half-close at once: the FIN is in the socket together with the request
+                    let _ = client.write_all(&unhex(h));
+                    let _ = client.shutdown(std::net::Shutdown::Write);
+                    std::thread::sleep(Duration::from_millis(2));
                 } else if step == "r" {
                     match read_response(client, &mut pending, Duration::from_millis(1500)) {
                         Ok(Some((st, close, body))) => out.push(format!("R{}:{}:{}", st, close as u8, hex(&body))),
@@ -176,7 +188,7 @@ pub fn serve(arg: &str) -> String {
                         Err(e) => out.push(e.into()),
                     }
                 } else if step == "w" {
-                    std::thread::sleep(Duration::from_millis(30));
+                    std::thread::sleep(Duration::from_millis(60));
                 }
             }
         } else {
@@ -185,7 +197,7 @@ pub fn serve(arg: &str) -> String {
         drop(client);
         transcripts.push(if out.is_empty() { "-".into() } else { out.join(",") });
         // let the server observe the close before the next connection
-        std::thread::sleep(Duration::from_millis(15));
+        std::thread::sleep(Duration::from_millis(if slow_teardown { 20 } else { 15 }));
     }
     let returned = rx.recv_timeout(Duration::from_millis(if conns.iter().any(|c| c.0 == 'S') { 2500 } else { 50 })).is_ok();
     std::thread::sleep(Duration::from_millis(20));
